@@ -204,6 +204,11 @@ func writeCodeDesc(w *bitW, rng *rand.Rand, lens []int, allowSimple bool) {
 	if allowSimple && simpleOK && rng.Intn(4) != 0 {
 		w.bits(1, 1)
 		w.bits(uint32(len(used)-1), 1)
+		if len(used) == 2 && rng.Intn(2) == 0 {
+			// the two symbols of a simple code may be listed in either order: the canonical code still gives the
+			// shorter/first code word to the numerically smaller symbol
+			used = []int{used[1], used[0]}
+		}
 		if used[0] < 2 && rng.Intn(2) == 0 {
 			w.bits(0, 1)
 			w.bits(uint32(used[0]), 1)
@@ -513,6 +518,18 @@ func writeImage(w *bitW, rng *rand.Rand, xs, ys int, toks []token, cbits int, is
 			used[g][0][280+t.key] = true
 		}
 	}
+	if vp8lSparseGroups && isMain {
+		// groups no tile refers to still carry five code descriptions each: give them codes of every shape
+		for g := range used {
+			if len(used[g][0]) == 0 {
+				for j := 0; j < 5; j++ {
+					for k := rng.Intn(7); k > 0; k-- {
+						used[g][j][rng.Intn(alph[j])] = true
+					}
+				}
+			}
+		}
+	}
 	codes := make([][5]*prefixCode, ngroups)
 	for g := 0; g < ngroups; g++ {
 		for j := 0; j < 5; j++ {
@@ -563,6 +580,19 @@ func genVP8L(rng *rand.Rand, maxW, maxH int) genStream {
 }
 
 // genVP8LWH builds one stream for a w x h picture.
+// vp8lSparseGroups switches genVP8LWH to sparse prefix-code group numbering (see genVP8LSparse).
+var vp8lSparseGroups bool
+
+// genVP8LSparse generates a small picture whose meta prefix image numbers its groups sparsely: more groups are
+// declared than the picture has pixels, most of them unused.
+func genVP8LSparse(rng *rand.Rand) genStream {
+	vp8lSparseGroups = true
+	defer func() { vp8lSparseGroups = false }()
+	g := genVP8LWH(rng, 5+rng.Intn(6), 1+rng.Intn(6))
+	g.Desc += " sparse-groups"
+	return g
+}
+
 func genVP8LWH(rng *rand.Rand, w, h int) genStream {
 	bw := &bitW{}
 	bw.bits(0x2f, 8)
@@ -645,9 +675,12 @@ func genVP8LWH(rng *rand.Rand, w, h int) genStream {
 		cb = 1 + rng.Intn(11)
 	}
 	metaBits, ngroups := 0, 1
-	if rng.Intn(3) == 0 {
+	if rng.Intn(3) == 0 || vp8lSparseGroups {
 		metaBits = 2 + rng.Intn(3)
 		ngroups = 1 + rng.Intn(4)
+		if vp8lSparseGroups {
+			metaBits, ngroups = 2, 2+rng.Intn(2) // 4x4 tiles: several tiles even in a small picture
+		}
 	}
 	mw := 1
 	if metaBits > 0 {
@@ -668,6 +701,25 @@ func genVP8LWH(rng *rand.Rand, w, h int) genStream {
 	for _, g := range tileGroup {
 		if g > maxG {
 			maxG = g
+		}
+	}
+	if vp8lSparseGroups {
+		// sparse group numbering: every group but 0 is moved beyond the number of pixels, so that more groups are
+		// declared (and described in the stream) than the picture has pixels; the ones in between are never used
+		shift := xs*h + rng.Intn(3)
+		for i, g := range tileGroup {
+			if g > 0 {
+				tileGroup[i] = g + shift
+			}
+		}
+		if maxG == 0 {
+			tileGroup[len(tileGroup)-1] = 1 + shift
+		}
+		maxG = 0
+		for _, g := range tileGroup {
+			if g > maxG {
+				maxG = g
+			}
 		}
 	}
 	ngroups = maxG + 1
